@@ -87,6 +87,11 @@ class Tracker(CmdMixin, MboxMixin, SweepMixin, Monitor):
         pend = world.any_in_transaction()
         if pend and self.f8_dangling:
             self.dontcare["c09_window_after_known_F8"] += 1
+            # the known failure leaves an *empty* transaction open; changes that later commands leave pending in it are not part of it
+            tabs = world.pending_changes()
+            if tabs:
+                self.flag({"C09"}, "frame emitted while changes are pending in the transaction left open after the known cross-app failure", st,
+                          {"conn": conn, "frame": _short(frame), "tables": tabs})
         elif pend:
             self.flag({"C09"}, "frame emitted inside an open transaction", st,
                       {"conn": conn, "frame": _short(frame), "pending": pend})
@@ -162,6 +167,8 @@ class Tracker(CmdMixin, MboxMixin, SweepMixin, Monitor):
                 and isinstance(st.msg, dict) and st.msg.get("type") in ("open", "close"):
             cm = self.cm.get(st.conn)
             mid = st.msg.get("mailbox")
+            if mid is None and cm is not None and st.msg.get("type") == "close":
+                mid = cm.opened_id          # a close without a name is about the id this connection opened
             if cm is not None and any(r["id"] == mid and r["app_id"] != cm.app for r in st.before["mailboxes"].values()):
                 f8 = True
                 self.known_finding("F8", {"C06", "C17"}, st, {"cmd": st.msg.get("type"), "exc": st.exc,
@@ -200,6 +207,10 @@ class Tracker(CmdMixin, MboxMixin, SweepMixin, Monitor):
             self.f8_dangling = False
         if st.in_txn_after and self.f8_dangling:
             self.dontcare["c09_window_after_known_F8"] += 1
+            tabs = world.pending_changes() if world.running else []
+            if tabs:
+                self.flag({"C09"}, "changes left pending in the transaction left open after the known cross-app failure", st,
+                          {"kind": st.kind, "msg": st.msg, "tables": tabs})
         elif st.in_txn_after:
             self.ev["c09_no_txn_after_step"] += 1
             self.flag({"C09", "C17"}, "transaction left open after step", st,
